@@ -37,7 +37,7 @@ OBLIGATIONS = [
        functions=STR_FUNCS, stubs=SX_STUBS,
        bounds="value = [0-1 symbolic char] + reserved word (data_, loop_, save_, global_, stop_, DATA_, Loop_) + [0-1 symbolic char], single-row (2 positions) and 2x2 looped (4 positions)"),
     CH("cif_masks", "c06_cif.py", "ob_cif_masks", cls="E", quick=120, functions=[F + ":CIFColumn.__init__", F + ":CIFColumn.as_item", F + ":CIFColumn.as_array", F + ":CIFData"],
-       bounds="menu values '.', '?', 'a', '', \"'.'\", 'x y' in 2 cells, 1-2 rows; real CIFColumn/numpy, file level"),
+       bounds="menu values '.', '?', 'a', '', \"'.'\", 'x y' and near misses of the mask characters ('. ', '?<tab>', ' .', '..', ' ?') in 2 cells, 1-2 rows; real CIFColumn/numpy, file level"),
 ]
 EXPLANATION = "C06: CIF text layer round trip and container mapping behaviour."
 ASSUMPTIONS = []
